@@ -47,7 +47,7 @@ def t_scenarios(tier):
 
 def main(tier):
     rep = common.Report("C04", tier, "model_checking")
-    run_spec(rep, C04Spec(tier), "closure", time_cap=240 if tier == "quick" else 3000)
+    run_spec(rep, C04Spec(tier), "closure", time_cap=120 if tier == "quick" else 3000)
     from ._t import run_scenarios
     results = run_scenarios(rep, t_scenarios(tier))
     per = {}
